@@ -16,6 +16,8 @@ import (
 
 const prop = "C01"
 
+const inconclusive = "INCONCLUSIVE: loopback exchange timed out"
+
 func TestMain(m *testing.M) {
 	code := m.Run()
 	ev.Flush()
@@ -39,12 +41,21 @@ func server(stream bool, readBuf int) *srv.Echo {
 	return s
 }
 
+// runner is an echo server that serves one connection's fragments: the scripted-connection
+// server (srv.Echo) or one behind a real socket and transport (srv.NetEcho).
+type runner interface {
+	Run(frags [][]byte, end sconn.End) ([]srv.Obs, sconn.Result, *sconn.Conn)
+}
+
 // CheckStream serves s and compares everything with the framing reference.
-func CheckStream(e *srv.Echo, s *gen.Stream) string {
+func CheckStream(e runner, s *gen.Stream) string {
 	frags := sconn.Split(s.Bytes, s.Cuts)
 	obs, res, _ := e.Run(frags, sconn.EOF)
 	if res.Panic != nil {
 		return fmt.Sprintf("panic: %v\n%s", res.Panic, res.Stack)
+	}
+	if res.Err == srv.ErrNetTimeout {
+		return inconclusive
 	}
 	// reference: every request is processed (only the last may ask for close)
 	if len(obs) != len(s.Reqs) {
@@ -197,6 +208,65 @@ func TestC01Streams(t *testing.T) {
 }
 
 // ---------------------------------------------------------------------------
+// The same reference over real sockets: netpoll and standard transports behind a unix-socket
+// listener (the statement's "standard vs netpoll transport" configuration). The bytes go through
+// the kernel, so the segmentation is only suggested (a pause after each fragment), and the last
+// request always asks for close so that the exchange ends without any timeout.
+
+var netServers = map[string]*srv.NetEcho{}
+
+func netServer(t interface{ Fatalf(string, ...interface{}) }, transport string, stream bool) *srv.NetEcho {
+	k := fmt.Sprint(transport, stream)
+	if s, ok := netServers[k]; ok {
+		return s
+	}
+	s, err := srv.NewNetEcho(srv.Config{Stream: stream, MaxBody: 8 << 20}, transport)
+	if err != nil {
+		t.Fatalf("harness: %v", err)
+	}
+	netServers[k] = s
+	return s
+}
+
+func TestC01Loopback(t *testing.T) {
+	rec := ev.New("loopback")
+	defer func() {
+		for k, s := range netServers {
+			s.Close()
+			delete(netServers, k)
+		}
+	}()
+	timeouts := 0
+	rapid.Check(t, func(t *rapid.T) {
+		transport := rapid.SampledFrom([]string{"netpoll", "netpoll", "standard"}).Draw(t, "transport")
+		stream := rapid.Bool().Draw(t, "streaming")
+		s := gen.GenStream(t, 5, gen.ReqOpts{Fold: true, NearMiss: true, Expect: true, HTTP10: true, Huge: ev.Thorough()})
+		if last := s.Reqs[len(s.Reqs)-1]; !last.Close {
+			gen.SetClose(last)
+			s.Encode()
+		}
+		nt, cls := classify(s, stream)
+		cls = append(cls, "transport-"+transport)
+		rec.Case(nt, ev.Hash(s.Bytes, []byte(fmt.Sprint(transport, stream, s.Cuts))), cls...)
+		msg := CheckStream(netServer(t, transport, stream), s)
+		if msg == inconclusive {
+			timeouts++
+			rec.Class("loopback-timeout-inconclusive", 1)
+			if timeouts > 3 {
+				fmt.Println("VERIF-INCONCLUSIVE: loopback exchanges keep timing out")
+			}
+			return
+		}
+		if msg != "" {
+			t.Fatalf("transport=%s streaming=%v cuts=%v\n%s\nstream: %s", transport, stream, trimInts(s.Cuts), msg, srv.Short(s.Bytes))
+		}
+		if nt && rec.WantSample() {
+			rec.Sample(sample(s, stream, 0))
+		}
+	})
+}
+
+// ---------------------------------------------------------------------------
 // Saved inputs (shrunk failures found by this check; see known_findings.json).
 
 func mkReq(method, target string, lines []wire.KV, framing wire.FramingKind, body []byte, chunks []int, trailers []wire.KV) *wire.Req {
@@ -237,6 +307,14 @@ func regressCases() []regressCase {
 			mkReq("POST", "/r0", []wire.KV{host, {K: "Content-Length", V: "8193"}}, wire.FrCL, gen.Body(8193, 0, 1, 3), nil, nil),
 			mkReq("POST", "/r1", []wire.KV{host, {K: "Content-Length", V: "3"}}, wire.FrCL, []byte("abc"), nil, nil),
 		}},
+		{name: "D22-obs-folded-trailer-value", reqs: []*wire.Req{
+			mkReq("POST", "/r0", []wire.KV{host, {K: "Transfer-Encoding", V: "chunked"}, {K: "Trailer", V: "X-Trailer-A, X-Checksum"}}, wire.FrChunked, []byte("hello"), []int{5}, []wire.KV{{K: "X-Trailer-A", V: "v\r\n cont"}, {K: "X-Checksum", V: "a\r\n\tb\r\n c"}}),
+			mkReq("GET", "/r1", []wire.KV{host}, wire.FrNone, nil, nil, nil),
+		}, folded: []map[string]bool{{"x-trailer-a": true, "x-checksum": true}, nil}},
+		{name: "D22-streaming-obs-folded-trailer-value", stream: true, reqs: []*wire.Req{
+			mkReq("POST", "/r0", []wire.KV{host, {K: "Transfer-Encoding", V: "chunked"}, {K: "Trailer", V: "X-Trailer-A"}}, wire.FrChunked, nil, nil, []wire.KV{{K: "X-Trailer-A", V: "v\r\n cont"}}),
+			mkReq("GET", "/r1", []wire.KV{host}, wire.FrNone, nil, nil, nil),
+		}, folded: []map[string]bool{{"x-trailer-a": true}, nil}},
 	}
 }
 
